@@ -41,8 +41,14 @@ pub fn seeds(thorough: bool) -> Vec<Seed> {
     let reduced = menu::body_menu(false);
     let mut v = vec![];
     // singles over the full menu (values up to 520 bytes) x 3 tails
+    let mut seen_wire: std::collections::HashSet<(u16, Vec<u8>)> = std::collections::HashSet::new();
     for a in &full {
         if value_bytes(a, &[0; 12]).len() > if thorough { 1100 } else { 300 } {
+            continue;
+        }
+        // seeds are byte strings: menu values that differ only in how the text was handed to the constructor (quoted forms,
+        // white space around it) give the same bytes - one seed per wire value (quick tier)
+        if !thorough && !seen_wire.insert((a.type_code(), value_bytes(a, &[0; 12]))) {
             continue;
         }
         for t in tails_small() {
